@@ -39,8 +39,9 @@ end
 
 mutual
 /-- Hybrid-free statements: all expressions (assignment targets included) hybrid-free, declared names and loop
-    variables outside `h_tmp…`, no expression statement and no `return` (neither has a counterpart in
-    `compileStmt`). -/
+    variables outside `h_tmp…`, loop counters of type ut32 (the pure model hardcodes the undeclared special
+    identifiers' type; a declared counter of another type is lowered by the hybrid model only), no expression
+    statement and no `return` (neither has a counterpart in `compileStmt`). -/
 def HybFreeS : CStmt → Bool
   | .decl _ n none => !isHTmp n
   | .decl _ n (some e) => !isHTmp n && HybFree e
@@ -48,7 +49,7 @@ def HybFreeS : CStmt → Bool
   | .chain lhs1 lhs2 _ e => HybFree lhs1 && HybFree lhs2 && HybFree e
   | .store _ e => HybFree e
   | .ite c t e => HybFree c && HybFreeSs t && (match e with | some e => HybFreeSs e | none => true)
-  | .for_ v c _ b => !isHTmp v && HybFree c && HybFreeSs b
+  | .for_ v c _ b => !isHTmp v && HybFree c && HybFreeSs b && loopVarTy v c == utT
   | .jump e => HybFree e
   | .skip _ => true
   | .exprstmt _ => false
